@@ -264,7 +264,29 @@ pub fn materialize_extras(extras: &[Extra], dir: &std::path::Path) {
     }
 }
 
+/// A recovery that exceeds the deadline is run a second time with a deadline twelve times as long
+/// (at least two minutes) before it is reported as a timeout: on a loaded machine a healthy `open`
+/// can miss ten seconds, a spinning one misses any deadline.
 pub fn recover_with(
+    script: &Arc<Script>,
+    files: &BTreeMap<u64, FileImg>,
+    extras: &[Extra],
+    cont: bool,
+    seed: u64,
+    deadline: Duration,
+) -> Recovery {
+    let first = recover_once(script, files, extras, cont, seed, deadline);
+    if first.out != "timeout" {
+        return first;
+    }
+    recover_once(script, files, extras, cont, seed, confirm_deadline(deadline))
+}
+
+pub fn confirm_deadline(deadline: Duration) -> Duration {
+    (deadline * 12).max(Duration::from_secs(120))
+}
+
+fn recover_once(
     script: &Arc<Script>,
     files: &BTreeMap<u64, FileImg>,
     extras: &[Extra],
